@@ -907,9 +907,9 @@ def instrument(P: _Proc):
 
     def class_getitem(cls, shape):
         if cls.shape is None:
-            key = (cls.dtype, (None,) if shape is None else shape)
-            if key not in onnx_types._tensor_type_shape_cache:
-                ev.append(["typecache", f"{cls.__name__}|{key[1]}"])
+            e = ["typecache", f"{cls.__name__}|{(None,) if shape is None else shape}"]
+            if e not in ev:
+                ev.append(e)
         return orig_cgi(cls, shape)
 
     onnx_types.TensorType.__class_getitem__ = classmethod(class_getitem)
